@@ -34,7 +34,12 @@ const (
 	cxByte
 	cxBool
 	cxErr
-	cxElem // (kind, name, value) of a freshly made element
+	cxElem  // (kind, name, value) of a freshly made element
+	cxNode  // an element as its methods and the getters see it: record gelem
+	cxChild // a child of it: record gchild
+	cxMapSS // map[string]string as an association list
+	cxMapSC // map[string]*elem as an association list of gchild
+	cxOptC  // *elem result of a map lookup: option gchild
 )
 
 type cxl struct {
@@ -48,6 +53,7 @@ type cxl struct {
 	carried []string             // inside a range loop: the loop-carried variables
 	inLoop  bool
 	ret     cxT
+	named   []string // named results of the function (a bare return yields them)
 }
 
 func (x *cxl) src(n ast.Node) string {
@@ -128,6 +134,11 @@ func (x *cxl) expr(e ast.Expr, g *cxGuards) (string, cxT) {
 		if e.Op == token.SUB {
 			a, _ := x.expr(e.X, g)
 			return "(- " + a + ")", cxInt
+		}
+		if e.Op == token.AND {
+			if _, ok := e.X.(*ast.CompositeLit); ok {
+				return x.expr(e.X, g)
+			}
 		}
 	case *ast.BinaryExpr:
 		if e.Op == token.LAND || e.Op == token.LOR {
@@ -210,6 +221,45 @@ func (x *cxl) expr(e ast.Expr, g *cxGuards) (string, cxT) {
 		if ta == cxStr || ta == cxStrs {
 			return "(gs_slice " + a + " " + lo + " " + hi + ")", ta
 		}
+	case *ast.SelectorExpr:
+		if id, ok := e.X.(*ast.Ident); ok {
+			fields := map[cxT]map[string][2]interface{}{
+				cxNode:  {"kind": {"ge_kind", cxInt}, "name": {"ge_name", cxStr}, "value": {"ge_value", cxStr}, "children": {"ge_children", cxMapSC}, "line": {"ge_line", cxStrs}},
+				cxChild: {"kind": {"gc_kind", cxInt}, "name": {"gc_name", cxStr}, "value": {"gc_value", cxStr}},
+			}
+			if f, ok := fields[x.vars[id.Name]][e.Sel.Name]; ok {
+				return "(" + f[0].(string) + " g_" + id.Name + ")", f[1].(cxT)
+			}
+		}
+	case *ast.CompositeLit:
+		if x.src(e.Type) == "elem" {
+			vals := map[string]string{"kind": "0", "name": "([] : gstr)", "value": "([] : gstr)", "children": "[]", "line": "[]"}
+			okAll := true
+			for _, el := range e.Elts {
+				kv, ok := el.(*ast.KeyValueExpr)
+				if !ok {
+					okAll = false
+					break
+				}
+				k, _ := kv.Key.(*ast.Ident)
+				if k == nil {
+					okAll = false
+					break
+				}
+				if _, known := vals[k.Name]; !known {
+					okAll = false
+					break
+				}
+				if c, isCall := kv.Value.(*ast.CallExpr); isCall && x.src(c) == "make(map[string]*elem)" {
+					vals[k.Name] = "[]"
+					continue
+				}
+				vals[k.Name], _ = x.expr(kv.Value, g)
+			}
+			if okAll {
+				return "{| ge_kind := " + vals["kind"] + "; ge_name := " + vals["name"] + "; ge_value := " + vals["value"] + "; ge_children := " + vals["children"] + "; ge_line := " + vals["line"] + " |}", cxNode
+			}
+		}
 	case *ast.CallExpr:
 		return x.call(e, g)
 	}
@@ -243,6 +293,13 @@ func (x *cxl) call(e *ast.CallExpr, g *cxGuards) (string, cxT) {
 			if len(as) >= 1 && ts[0] == cxStrs && !e.Ellipsis.IsValid() {
 				return "(" + as[0] + " ++ [" + strings.Join(as[1:], "; ") + "])", cxStrs
 			}
+			if len(as) == 2 && ts[0] == cxStrs && ts[1] == cxStrs && e.Ellipsis.IsValid() {
+				return "(" + as[0] + " ++ " + as[1] + ")", cxStrs
+			}
+		case "make":
+			if x.src(e) == "make(map[string]string)" {
+				return "([] : list (gstr * gstr))", cxMapSS
+			}
 		case "int", "int32", "int64":
 			as, _ := args()
 			if len(as) == 1 {
@@ -256,6 +313,11 @@ func (x *cxl) call(e *ast.CallExpr, g *cxGuards) (string, cxT) {
 		}
 	case *ast.SelectorExpr:
 		pkg, _ := f.X.(*ast.Ident)
+		if pkg != nil && x.vars[pkg.Name] == cxChild && (f.Sel.Name == "isNode" || f.Sel.Name == "isLeaf") && len(e.Args) == 0 {
+			t := "(tr_" + f.Sel.Name + " g_" + pkg.Name + ")"
+			*g = append(*g, "(gs_is_some "+t+")")
+			return "(gs_get false " + t + ")", cxBool
+		}
 		if pkg != nil && pkg.Name == "strings" {
 			as, _ := args()
 			type sig struct {
@@ -290,6 +352,9 @@ func (x *cxl) call2(e ast.Expr, g *cxGuards) (string, cxT, bool) {
 	}
 	if o, ok := x.oracles[x.src(c)]; ok && o[1] == "strerr" {
 		return o[0], cxStr, true
+	}
+	if o, ok := x.oracles[x.src(c)]; ok && o[1] == "nodeerr" {
+		return o[0], cxNode, true
 	}
 	f, ok := c.Fun.(*ast.SelectorExpr)
 	if !ok {
@@ -358,6 +423,55 @@ func (x *cxl) stmt(s ast.Stmt, rest func() string, d int) string {
 	var g cxGuards
 	switch s := s.(type) {
 	case *ast.AssignStmt:
+		if len(s.Lhs) == 1 && len(s.Rhs) == 1 {
+			// pathVec := e.analysisPath(path): a call of the translated function
+			if c, ok := s.Rhs[0].(*ast.CallExpr); ok && len(c.Args) == 1 {
+				if f, ok := c.Fun.(*ast.SelectorExpr); ok && f.Sel.Name == "analysisPath" {
+					if id, ok := s.Lhs[0].(*ast.Ident); ok {
+						a, _ := x.expr(c.Args[0], &g)
+						x.bind(id.Name, cxStrs)
+						return cxGuarded(g, "match tr_analysisPath "+a+" with None => None | Some g_"+id.Name+" =>"+cxInd(d)+rest()+cxInd(d)+"end")
+					}
+				}
+			}
+			// e.f = v on an element variable
+			if sel, ok := s.Lhs[0].(*ast.SelectorExpr); ok && s.Tok == token.ASSIGN {
+				if id, ok := sel.X.(*ast.Ident); ok && x.vars[id.Name] == cxNode {
+					set := map[string]string{"value": "ge_set_value", "line": "ge_set_line", "children": "ge_set_children"}[sel.Sel.Name]
+					if set != "" {
+						v, _ := x.expr(s.Rhs[0], &g)
+						return cxGuarded(g, "let g_"+id.Name+" := "+set+" g_"+id.Name+" "+v+" in"+cxInd(d)+rest())
+					}
+				}
+			}
+			// m[k] = v on a map variable or on the children of an element variable
+			if ix, ok := s.Lhs[0].(*ast.IndexExpr); ok && s.Tok == token.ASSIGN {
+				k, _ := x.expr(ix.Index, &g)
+				v, _ := x.expr(s.Rhs[0], &g)
+				if id, ok := ix.X.(*ast.Ident); ok && x.vars[id.Name] == cxMapSS {
+					return cxGuarded(g, "let g_"+id.Name+" := gs_map_set g_"+id.Name+" "+k+" "+v+" in"+cxInd(d)+rest())
+				}
+				if sel, ok := ix.X.(*ast.SelectorExpr); ok && sel.Sel.Name == "children" {
+					if id, ok := sel.X.(*ast.Ident); ok && x.vars[id.Name] == cxNode {
+						return cxGuarded(g, "let g_"+id.Name+" := ge_set_children g_"+id.Name+" (gs_map_set (ge_children g_"+id.Name+") "+k+" "+v+") in"+cxInd(d)+rest())
+					}
+				}
+			}
+		}
+		if len(s.Lhs) == 2 && len(s.Rhs) == 1 {
+			// ret, ok = e.children[name]
+			if ix, ok := s.Rhs[0].(*ast.IndexExpr); ok {
+				m, mt := x.expr(ix.X, &g)
+				k, _ := x.expr(ix.Index, &g)
+				a, aok := s.Lhs[0].(*ast.Ident)
+				b, bok := s.Lhs[1].(*ast.Ident)
+				if aok && bok && mt == cxMapSC {
+					x.bind(a.Name, cxOptC)
+					x.bind(b.Name, cxBool)
+					return cxGuarded(g, "let '(g_"+a.Name+", g_"+b.Name+") := gs_map_get2 "+m+" "+k+" in"+cxInd(d)+rest())
+				}
+			}
+		}
 		if len(s.Lhs) == 2 && len(s.Rhs) == 1 {
 			if t, ty, ok := x.call2(s.Rhs[0], &g); ok {
 				a, aok := s.Lhs[0].(*ast.Ident)
@@ -443,6 +557,17 @@ func (x *cxl) stmt(s ast.Stmt, rest func() string, d int) string {
 			t, _ := x.expr(s.Results[0], &g)
 			return cxGuarded(g, "Some "+t)
 		}
+		if !x.inLoop && !x.effects && len(s.Results) == 2 {
+			a, _ := x.expr(s.Results[0], &g)
+			b, _ := x.expr(s.Results[1], &g)
+			return cxGuarded(g, "Some ("+a+", "+b+")")
+		}
+		if !x.inLoop && !x.effects && len(s.Results) == 0 {
+			if len(x.named) > 0 {
+				return "Some " + x.tuple(x.named)
+			}
+			return "Some tt"
+		}
 	case *ast.IfStmt:
 		if s.Init != nil {
 			return x.stmt(s.Init, func() string {
@@ -472,6 +597,21 @@ func (x *cxl) stmt(s ast.Stmt, rest func() string, d int) string {
 			k, kok := s.Key.(*ast.Ident)
 			v, vok := s.Value.(*ast.Ident)
 			coll, ct := x.expr(s.X, &g)
+			if kok && vok && k.Name == "_" && ct == cxMapSC {
+				coll, ct = "(map snd "+coll+")", cxUnknown
+				car := x.assignedOuter(s.Body.List)
+				if len(car) > 0 {
+					saved := x.copyVars()
+					x.bind(v.Name, cxChild)
+					x.inLoop, x.carried = true, car
+					body := x.block(s.Body.List, x.fall, d+2)
+					x.inLoop, x.carried = false, nil
+					x.vars = saved
+					st := x.tuple(car)
+					return cxGuarded(g, "match fold_left (fun g_st g_"+v.Name+" => match g_st with None => None | Some "+st+" =>"+cxInd(d+2)+body+cxInd(d+1)+"end) "+coll+" (Some "+st+") with"+
+						cxInd(d)+"| None => None"+cxInd(d)+"| Some "+st+" =>"+cxInd(d+1)+rest()+cxInd(d)+"end")
+				}
+			}
 			if kok && vok && k.Name == "_" && ct == cxStrs {
 				car := x.assignedOuter(s.Body.List)
 				if len(car) > 0 {
@@ -511,6 +651,9 @@ func (x *cxl) assignedOuter(ss []ast.Stmt) []string {
 		ast.Inspect(s, func(n ast.Node) bool {
 			if a, ok := n.(*ast.AssignStmt); ok && a.Tok == token.ASSIGN {
 				for _, l := range a.Lhs {
+					if ix, ok := l.(*ast.IndexExpr); ok {
+						l = ix.X
+					}
 					if id, ok := l.(*ast.Ident); ok {
 						if _, known := x.vars[id.Name]; known && !seen[id.Name] {
 							seen[id.Name] = true
@@ -523,6 +666,16 @@ func (x *cxl) assignedOuter(ss []ast.Stmt) []string {
 		})
 	}
 	return out
+}
+
+func cxParams(x *cxl, fd *ast.FuncDecl) string {
+	var ps []string
+	for _, f := range fd.Type.Params.List {
+		for _, n := range f.Names {
+			ps = append(ps, n.Name+" "+x.src(f.Type))
+		}
+	}
+	return strings.Join(ps, ",")
 }
 
 // cxSquash removes all white space (the pinned statements are compared modulo layout and comments)
@@ -734,6 +887,92 @@ func c17Xlate(root string) string {
 		}
 		report(x)
 		fmt.Fprintf(&out, "(* elem.analysisPath *)\nDefinition tr_analysisPath (g_path : gstr) : option (list gstr) :=\n  %s.\n\n", body)
+	}
+	// the methods of elem
+	for _, u := range []struct {
+		fn, params, typ string
+		recv            cxT
+		ptypes          []cxT
+	}{
+		{"isNode", "(g_e : gchild)", "bool", cxChild, nil}, {"isLeaf", "(g_e : gchild)", "bool", cxChild, nil},
+		{"setValue", "(g_e : gelem) (g_value : gstr)", "gelem", cxNode, []cxT{cxStr}},
+		{"addChild", "(g_e : gelem) (g_name : gstr) (g_child : gchild)", "gelem", cxNode, []cxT{cxStr, cxChild}},
+		{"addLine", "(g_e : gelem) (g_line : gstr)", "gelem", cxNode, []cxT{cxStr}},
+		{"findChild", "(g_e : gelem) (g_name : gstr)", "(option gchild * bool)", cxNode, []cxT{cxStr}},
+	} {
+		x := newX()
+		body := "go_unsupported_method_not_found"
+		if fd := cxFindFunc(file, "elem", u.fn); fd != nil && fd.Recv != nil && len(fd.Recv.List[0].Names) == 1 {
+			r := fd.Recv.List[0].Names[0].Name
+			x.vars[r] = u.recv
+			i := 0
+			okp := true
+			for _, f := range fd.Type.Params.List {
+				for _, n := range f.Names {
+					if i < len(u.ptypes) {
+						x.vars[n.Name] = u.ptypes[i]
+					} else {
+						okp = false
+					}
+					i++
+				}
+			}
+			if fd.Type.Results != nil {
+				for _, f := range fd.Type.Results.List {
+					for _, n := range f.Names {
+						x.named = append(x.named, n.Name)
+					}
+				}
+			}
+			pre := ""
+			if u.fn == "findChild" && len(x.named) == 2 {
+				x.vars[x.named[0]], x.vars[x.named[1]] = cxOptC, cxBool
+				pre = "let g_" + x.named[0] + " := (None : option gchild) in let g_" + x.named[1] + " := false in "
+			}
+			// a method that returns nothing, or its receiver: the value is the receiver as the body leaves it
+			if u.typ == "gelem" {
+				x.named = []string{r}
+			}
+			if okp && i == len(u.ptypes) {
+				ss := fd.Body.List
+				if u.typ == "gelem" && len(ss) > 0 {
+					if rs, ok := ss[len(ss)-1].(*ast.ReturnStmt); ok && len(rs.Results) == 1 && x.src(rs.Results[0]) == r {
+						ss = append(append([]ast.Stmt{}, ss[:len(ss)-1]...), &ast.ReturnStmt{})
+					}
+				}
+				body = pre + x.block(ss, x.fall, 1)
+				if r != "e" {
+					body = "let g_" + r + " := g_e in " + body
+				}
+			} else {
+				body = x.unsupported(fd, "parameters differ")
+			}
+		}
+		report(x)
+		fmt.Fprintf(&out, "(* elem.%s *)\nDefinition tr_%s %s : option %s :=\n  %s.\n\n", u.fn, u.fn, u.params, u.typ, body)
+	}
+	{
+		x := newX()
+		body := "go_unsupported_newElem_not_found"
+		if fd := cxFindFunc(file, "", "newElem"); fd != nil && cxParams(x, fd) == "kind int,name string" {
+			x.vars["kind"], x.vars["name"] = cxInt, cxStr
+			body = x.block(fd.Body.List, x.fall, 1)
+		}
+		report(x)
+		fmt.Fprintf(&out, "(* newElem *)\nDefinition tr_newElem (g_kind : Z) (g_name : gstr) : option gelem :=\n  %s.\n\n", body)
+	}
+	// the listing getters of elem; e.getElem(pathVec) is an oracle (its two results are parameters)
+	for _, u := range []struct{ fn, typ string }{{"getDomain", "(list gstr * bool)"}, {"getDomainKey", "(list gstr * bool)"}, {"getDomainLine", "(list gstr * bool)"},
+		{"getMap", "(list (gstr * gstr) * bool)"}, {"getValue", "(gstr * bool)"}} {
+		x := newX()
+		body := "go_unsupported_getter_not_found"
+		if fd := cxFindFunc(file, "elem", u.fn); fd != nil && cxParams(x, fd) == "path string" {
+			x.vars["path"] = cxStr
+			x.oracles["e.getElem(pathVec)"] = [2]string{"(g_node0, g_err0)", "nodeerr"}
+			body = x.block(fd.Body.List, x.fall, 1)
+		}
+		report(x)
+		fmt.Fprintf(&out, "(* elem.%s; (g_node0, g_err0) = e.getElem(pathVec) *)\nDefinition tr_%s (g_path : gstr) (g_node0 : gelem) (g_err0 : bool) : option %s :=\n  %s.\n\n", u.fn, u.fn, u.typ, body)
 	}
 	// unit E: the typed getters; c.root.getValue(path) is an oracle (its two results are parameters)
 	for _, u := range []struct{ fn, typ string }{{"GetStringWithDef", "gstr"}, {"GetIntWithDef", "Z"}, {"GetInt32WithDef", "Z"}, {"GetBoolWithDef", "bool"}} {
